@@ -125,3 +125,23 @@ extern "C" void h_findanddelete(void) {
            for (size_t i = 0; i < H_SCRIPT_N; ++i) if (i < on) __CPROVER_assert(s.s.a[i] == out[i], "spec: all other bytes are kept, in order"); }
     __CPROVER_assert(found != 2, "canary: two occurrences reachable");
 }
+// ---- output-type recognition used when a --tx/--txin session is set up (C03 fragment): BIP16 / BIP141 script patterns
+extern "C" void h_script_patterns(void) {
+    CScript s; __CPROVER_havoc_object(&s); __CPROVER_assume(s.n <= H_SCRIPT_N);
+    const unsigned char* b = s.s.a; const size_t n = s.n;
+    __CPROVER_assert(s.IsPayToScriptHash() == (n == 23 && b[0] == 0xa9 && b[1] == 0x14 && b[22] == 0x87), "spec: P2SH pattern is exactly OP_HASH160 <20 bytes> OP_EQUAL (BIP16)");
+    __CPROVER_assert(s.IsPayToWitnessScriptHash() == (n == 34 && b[0] == 0x00 && b[1] == 0x20), "spec: P2WSH pattern is exactly OP_0 <32 bytes> (BIP141)");
+    int version = -7; verif_bytes program; __CPROVER_havoc_object(&program); __CPROVER_assume(program.n <= VERIF_ITEM_CAP);
+    bool w = s.IsWitnessProgram(version, program);
+    bool e = n >= 4 && n <= 42 && (b[0] == 0x00 || (b[0] >= 0x51 && b[0] <= 0x60)) && (size_t)(b[1] + 2) == n;
+    __CPROVER_assert(w == e, "spec: a witness program is a version opcode (OP_0, OP_1..OP_16) followed by one direct push of 2..40 bytes that ends the script (BIP141)");
+    if (w) {
+        __CPROVER_assert(version == (b[0] == 0x00 ? 0 : (int)b[0] - 0x50), "spec: the witness version is the number the version opcode pushes");
+        __CPROVER_assert(program.n == n - 2, "spec: the witness program is the pushed payload");
+        for (size_t i = 0; i < 40; ++i) if (i + 2 < n) __CPROVER_assert(program.s.a[i] == b[2 + i], "spec: the witness program bytes are the pushed payload, in order");
+    } else {
+        __CPROVER_assert(version == -7, "frame: a non-witness script leaves the version output untouched");
+    }
+    __CPROVER_assert(!(w && version == 1 && n == 34), "canary: taproot output (version 1, 32-byte program) reachable");
+    __CPROVER_assert(!s.IsPayToScriptHash(), "canary: P2SH pattern reachable");
+}
